@@ -104,11 +104,13 @@ def gen_sapi(seed, tier):
         for n2 in (0, 1, 3, 5):
             cases.append(Case("sapi", "m%d" % i, [L(3, n1, n2, 0), L(3, n1, n2, 1)])); i += 1
     cases.append(Case("sapi", "q%d" % i, [L(4, n) for n in (0, 1, 2, 5, 8, 0)])); i += 1
+    cases.append(Case("sapi", "s%d" % i, [L(5, n) for n in (0, 1, 2, 3, 4, 8)])); i += 1
+    cases.append(Case("sapi", "c%d" % i, [L(6, n) for n in (0, 1, 2, 3, 8)])); i += 1
     for _ in range(15 if tier == "quick" else 150):
         ops = []
         for _ in range(rng.randint(2, 8)):
-            k = rng.choice([1, 2, 3, 4])
-            if k == 4: ops.append(L(4, rng.randint(0, 8)))
+            k = rng.choice([1, 2, 3, 4, 5, 6])
+            if k >= 4: ops.append(L(k, rng.randint(0, 8)))
             else: ops.append(L(k, rng.randint(0, 12), rng.randint(0, 1)) if k < 3 else L(3, rng.randint(0, 8), rng.randint(0, 8), rng.randint(0, 1)))
         if rng.random() < 0.2: ops.insert(rng.randrange(len(ops) + 1), rng.choice([L(1, 13, 0), L(3, 1, 9, 0), L(4), L(2, 1, 2)]))
         cases.append(Case("sapi", "r%d" % i, ops)); i += 1
